@@ -258,7 +258,8 @@ func (rn *runner) one(vc *valCase, idx int, e enc, only *Case) {
 
 	// intact
 	drivers := []string{"fast"}
-	if small && len(e.B) <= 4096 {
+	first := vc.v.Nodes() == 1 || idx == 0 || vc.v.Rep
+	if small && first && len(e.B) <= 4096 {
 		// the documented from_F as well (the fast driver is its body without the registry lookup)
 		drivers = []string{"fast", "public"}
 	}
@@ -302,7 +303,7 @@ func (rn *runner) one(vc *valCase, idx int, e enc, only *Case) {
 				rn.checkPrefix(vc, e, c, pre, err != nil, fmt.Sprint(err), pan)
 			}
 			// the same through from_F for the one node values and the first encoding of the two node values
-			if ((small && (idx == 0 || vc.v.Nodes() == 1)) || only != nil) && want("prefix", "public") {
+			if ((small && first) || only != nil) && want("prefix", "public") {
 				c := c
 				c.Driver = "public"
 				rn.r.Nontrivial(key + fmt.Sprintf("|prefix%d", p))
@@ -365,7 +366,8 @@ func (rn *runner) trailing(vc *valCase, idx int, e enc, only *Case) {
 		if !sp.binary {
 			drv = "public"
 		}
-		if (!vc.trailAll || len(in) > 4096) && only == nil {
+		// (one node values, the grid, the first encoding of two node values; up to 4 KiB)
+		if (!vc.trailAll || len(in) > 4096 || !(vc.v.Nodes() == 1 || idx == 0 || vc.v.Rep)) && only == nil {
 			continue
 		}
 		if only != nil && (only.Kind != tk || only.Driver != drv) {
